@@ -3,6 +3,7 @@
    for ALL fitness vectors (any ties), ALL distance matrices, ALL thresholds. *)
 From Coq Require Import ZArith List Bool Arith Sorting.
 From HV Require Import NBC NBCFacts Ord ListX Select SelectFacts.
+From HV Require Import GenNBC GenEquivNBC.
 Import ListNotations.
 Local Open Scope Z_scope.
 
@@ -41,3 +42,16 @@ Example C15_example :
   let D (i j : nat) := Z.abs (nth i [0; 10; 1; 11; 5] 0 - nth j [0; 10; 1; 11; 5] 0) in
   nbc D [1; 1; 2; 3; 3] 2 = [0; 1; 4]%nat /\ map (nbd D [1; 1; 2; 3; 3]) [1; 2; 3; 4]%nat = [10; 1; 1; 4].
 Proof. vm_compute. split; reflexivity. Qed.
+
+(* ---------------------------------------------------------------- the same for the TRANSLATED code: Gen/GenNBC.v is regenerated on every
+   check from NearestBetterClustering.__init__ / cluster / distances / _prepare_spanning_tree / _find_nearest_better / _find_root_nodes
+   (hv/translate/nbc_py.py) and IS the model of the theorems above *)
+Theorem C15_translated_cluster D gs thr : gen_cluster D gs thr = nbc D gs thr.
+Proof. exact (gen_cluster_eq D gs thr). Qed.
+Print Assumptions C15_translated_cluster.
+Theorem C15_translated_edges_and_parents D gs i : gen_edge D gs i = nbd D gs i /\ gen_parent D gs i = parent D gs i /\ gen_ncand gs i = ncand gs i.
+Proof. exact (conj (gen_edge_eq D gs i) (conj (gen_parent_eq D gs i) (gen_ncand_eq gs i))). Qed.
+Print Assumptions C15_translated_edges_and_parents.
+Theorem C15_translated_returns_defined_seeds D gs thr i : In i (gen_cluster D gs thr) <-> i = O \/ ((0 < i < length gs)%nat /\ thr < gen_edge D gs i).
+Proof. rewrite gen_cluster_eq, gen_edge_eq. exact (C15_returns_defined_seeds D gs thr i). Qed.
+Print Assumptions C15_translated_returns_defined_seeds.
